@@ -61,7 +61,8 @@ theorem specRun_memFiled {sch : Levels} {db db' : Engine.DB} {sdb sdb' : Spec.SD
 
 /-- one record of the redo keeps the cache filed (every branch of `replayOne`) -/
 theorem replayOne_memFiled (r : WalRec) (s : Store) (hf : MemFiled s) : MemFiled (replayOne r s).1 := by
-  have hf0 : MemFiled { s with hdr := { s.hdr with nextLSN := max s.hdr.nextLSN r.lsn } } := hf.of_mem_eq rfl
+  have hf0 : MemFiled (raiseRec s r) := hf.of_mem_eq rfl
+  unfold raiseRec at hf0
   unfold Engine.replayOne
   simp only
   split
